@@ -63,6 +63,17 @@ func Install(name string) *Recorder {
 	return r
 }
 
+// Reinstall lets the same recorder wrap the disk manager of the next instance opened on the same files
+// (restart inside a recorded history); the event list simply continues.
+func (r *Recorder) Reinstall() {
+	samehada.VerifDiskWrapper = func(d disk.DiskManager) disk.DiskManager {
+		r.mu.Lock()
+		r.inner = d
+		r.mu.Unlock()
+		return r
+	}
+}
+
 // Uninstall removes the wrapper for subsequently created instances.
 func Uninstall() { samehada.VerifDiskWrapper = nil }
 
